@@ -8,7 +8,7 @@ Cases == ndJsonDeserialize(IOEnv.CASES)
 VARIABLE i
 FirstSpace(s) == LET P == {k \in 1..Len(s) : SubSeq(s, k, k) = " "} IN IF P = {} THEN 0 ELSE CHOOSE k \in P : \A j \in P : k <= j
 CutName(s) == IF FirstSpace(s) = 0 THEN s ELSE SubSeq(s, 1, FirstSpace(s) - 1)
-Kept(mode) == CASE mode = "node" -> {2, 3, 4, 5, 6, 7, 8, 9, 10, 11, 12}
+Kept(mode) == CASE mode \in {"node", "node_same_path_now_bgzf"} -> {2, 3, 4, 5, 6, 7, 8, 9, 10, 11, 12}
                 [] mode \in {"stable", "unstable", "node_stable"} -> {2, 3, 4, 10, 11, 12}
                 [] mode = "realign" -> {2, 3, 4, 5, 6, 7, 8, 9, 12}
 RecVerdict(mode, a, b, pt) ==
